@@ -249,7 +249,8 @@ def make_parsers(schema):
 
 OPS = ["AND", "OR", "NOT", "ANDNOT", "ANDMAYBE", "REQUIRE", "and", "TO", "to", "NEAR"]
 BRACKETS = ["(", ")", "[", "]", "{", "}", "((", "))", "()", "[]", "{}", "( )"]
-QUOTES = ['"', "'", '""', "''", '"~', '"~2', '"~0', "r\"", 'r"a.*"', 'r"["', 'r"(a"', 'r"*"']
+QUOTES = ['"', "'", '""', "''", '"~', '"~2', '"~0', "r\"", 'r"a.*"', 'r"["', 'r"(a"', 'r"*"', 'r"alp\\Z"', 'r"\\Aalfa\\Z"',
+          'r"a\\Gb"', 'r"\\D+"']
 PUNCT = [":", "^", "~", "*", "?", "+", "-", "<", ">", "<=", ">=", "=<", "=>", "=", "\\", ".", "/", "&&", "||", "!",
          "&", "|", "&!", "&~", "#", "#fn", "#fn[", "#fn[a,b=c]", ",", ";", "@", "%", "$", "::", "^^", "~~", "**", "*?",
          "??", "<<", ">>", "<>"]
